@@ -371,6 +371,20 @@ fn check_len<T: El>(len: usize) -> Result<(), String> {
     arr_checks::<T, 32>(s, &mut m)?;
     arr_checks::<T, 33>(s, &mut m)?;
     arr_checks::<T, 64>(s, &mut m)?;
+    // array lengths congruent to the slice length modulo 2^8 / 2^16 / 2^32 (only conversions: no element is touched)
+    macro_rules! congruent_n {
+        ($($n:expr),*) => {$({
+            const N: usize = $n;
+            let k = ks::try_into_array::<T, N>(s);
+            ensure!(k.is_ok() == (len == N), "try_into_array::<{N}> len {len}: konst ok={}", k.is_ok());
+            let k = ks::try_into_array_mut::<T, N>(&mut m);
+            ensure!(k.is_ok() == (len == N), "try_into_array_mut::<{N}> len {len}: konst ok={}", k.is_ok());
+        })*};
+    }
+    if std::mem::size_of::<T>() <= 8 {
+        // ([T; N] must be a valid type: N * size_of::<T>() <= isize::MAX)
+        congruent_n!(256, 257, 258, 259, 65536, 65537, 65538, 65539, (1 << 32), (1 << 32) + 1, (1 << 32) + 2, (1 << 32) + 3, (1 << 40) + 3, (1 << 56) + 1);
+    }
     // first_mut / last_mut / split_first_mut / split_last_mut
     let base = m.as_ptr() as usize;
     let sz = std::mem::size_of::<T>();
@@ -541,12 +555,12 @@ fn explore(ctx: &mut Ctx) {
         }
     }
     ctx.exhaustive_part(&format!(
-        "lengths {{0..={},64,1000}} x 5 element types x index set {{0..=len+2, usize::MAX, usize::MAX-1, isize::MAX-1..=isize::MAX+1, usize::MAX-len(+1)}} x all pairs; N in {{0,1,2,3,4,5,7,8,9,15,16,17,31,32,33,64}} for array/chunk conversions",
+        "lengths {{0..={},64,1000}} x 5 element types x index set {{0..=len+2, usize::MAX, usize::MAX-1, isize::MAX-1..=isize::MAX+1, usize::MAX-len(+1)}} x all pairs; N in {{0,1,2,3,4,5,7,8,9,15,16,17,31,32,33,64}} for array/chunk conversions, N = len + 2^8 / 2^16 / 2^32 / 2^40 / 2^56 for try_into_array(_mut); indices also small + 2^8 / 2^16 / 2^32 / 2^63",
         ctx.by_tier(16, 33)
     ));
     // zero-sized elements, more than isize::MAX of them
     let im = isize::MAX as usize;
-    for len in [im - 1, im, im + 1, im + 12_345, (im / 2) * 3, usize::MAX - 1, usize::MAX] {
+    for len in [(1usize << 16) + 3, (1usize << 32) + 3, (1usize << 32) + 4096, im - 1, im, im + 1, im + 12_345, (im / 2) * 3, usize::MAX - 1, usize::MAX] {
         let mut idx = vec![0, 1, 2, 4095, 4096, 1 << 62, im - 1, im, im + 1, im + 2, im + 7, im + 12_344, (im / 2) * 3, usize::MAX - 1, usize::MAX];
         idx.extend_from_slice(&[len.wrapping_sub(2), len.wrapping_sub(1), len, len.wrapping_add(1)]);
         idx.sort_unstable();
@@ -557,7 +571,7 @@ fn explore(ctx: &mut Ctx) {
             }
         }
     }
-    ctx.exhaustive_part("zero-sized elements: 7 slice lengths from isize::MAX-1 to usize::MAX x 19 indices^2 (incl. valid indices above isize::MAX), lengths of all results compared with std");
+    ctx.exhaustive_part("zero-sized elements: 10 slice lengths (2^16+3, 2^32+3, 2^32+4096, isize::MAX-1 .. usize::MAX) x 19 indices^2 (incl. valid indices above isize::MAX), lengths of all results compared with std");
     // random: arbitrary usize indices, lengths up to 200
     let n = ctx.by_tier(200_000, 2_000_000);
     let strat = (
